@@ -19,7 +19,7 @@ PROFILE = {'name': 'c05', 'spec': {'shapes': ['dense', 'dense', 'tight_lecturer'
            'opts': {'twopl': True, 'stab': True, 'ncrit_choices': [0, 1, 1, 1, 2],
                     'crit_pool': ['maxsize', 'maxsize', 'minsize', 'minsize', 'gen', 'gre', 'mincost', 'minsqcost',
                                   'lmb', 'lsb', 'mincostlsb']},
-           'medium_rate': 0.12, 'shipped_rate': 0.02}
+           'medium_rate': 0.12, 'shipped_rate': 0.02, 'large_rate': 0.04}
 CLAUSES = ['3a', '3b_in_Ml', '3b_pref', '3c', '3b_tie_not_strict', '3c_tie_not_strict', 'student_tie_not_strict',
            '3b_no_worst', '3c_no_worst']
 
